@@ -81,7 +81,7 @@ def sem (T : Tables) : Sem Token Actions.PVal LexState PErr :=
       | .error e => .error (.act e) }
 
 /-- fuel of the LR loop: generous multiple of the text length (every step shifts, reduces or repairs) -/
-def parseFuel (text : List Char) : Nat := 200 * (text.length + 4)
+def parseFuel (text : List Char) : Nat := 500 * (text.length + 1)
 
 def parseWith (T : Tables) (text : List Char) (withComments : Bool) : Outcome Actions.PVal PErr :=
   (run T (sem T) source (parseFuel text) (initConfig (Lexer.init text withComments false))).1
